@@ -258,7 +258,7 @@ Section Glue64.
   Theorem vglue64 : agree_v a st i.
   Proof.
     unfold agree_v. rewrite (exec_vector_eq a st i Hnr), (exec_spec_v_eq a st i Hnr).
-    unfold exec_vector_gen, exec_spec_vgen. rewrite Hd, Hr. cbn [obind].
+    unfold exec_vector_gen, exec_spec_vgen. rewrite Hd, Hr. cbn [obind]. unfold run_d, run_r.
     destruct g6_loop as (s' & HL & HS & HV). rewrite HL, g6_ok. cbn [negb].
     destruct g6_mask as [HM HMr]. rewrite HM.
     destruct (g6_st1 s' HS HV) as (st1 & E1 & Heq).
